@@ -145,6 +145,8 @@ type ext2World struct {
 	byKey map[ext2Key]string
 	byVal map[string]string // answer value -> abstract key
 	nval  int
+
+	noGzip bool // colliding dumps: a gzip writer costs more than the dump itself
 }
 
 func ext2NewWorld(rng *rand.Rand) (w *ext2World) {
@@ -307,12 +309,6 @@ func ext2Distance(v ext2Vec) (n int) {
 	return n
 }
 
-func ext2RandVec(rng *rand.Rand) ext2Vec {
-	return ext2Vec{Nil: rng.Intn(12) == 0, Resp: rng.Intn(4) != 0, NQ: []int{1, 1, 1, 0, 2}[rng.Intn(5)],
-		RCode: ext2Pick(rng, ext2VRCodes), QType: ext2Pick(rng, ext2VQTypes), QClass: ext2Pick(rng, ext2VQClasses),
-		Name: ext2Pick(rng, ext2VNames), Ans: ext2Pick(rng, ext2VAns)}
-}
-
 // a vector the table rejects, one or two fields away from an accepted one
 func (w *ext2World) ignoredVec(rng *rand.Rand, k string) (v ext2Vec) {
 	for {
@@ -371,6 +367,19 @@ func (w *ext2World) project(b *buffer) (m map[string]int, foreign int) {
 // ext2Dump performs one request against the real handler and groups the CSV
 // rows by key.
 func (w *ext2World) dump(cl *http.Client, url string, rng *rand.Rand) (taken map[string]ext2Taken, enc string, foreign int, why string) {
+	return w.dumpVia(func(req *http.Request) (*http.Response, error) { return cl.Do(req) }, url, rng)
+}
+
+// dumpDirect calls the handler without a socket (used where many dumps must collide).
+func (w *ext2World) dumpDirect(db *Default, rng *rand.Rand) (taken map[string]ext2Taken, enc string, foreign int, why string) {
+	return w.dumpVia(func(req *http.Request) (*http.Response, error) {
+		rec := httptest.NewRecorder()
+		db.ServeHTTP(rec, req)
+		return rec.Result(), nil
+	}, "http://dnsdb.example/dnsdb/csv", rng)
+}
+
+func (w *ext2World) dumpVia(do func(*http.Request) (*http.Response, error), url string, rng *rand.Rand) (taken map[string]ext2Taken, enc string, foreign int, why string) {
 	taken = map[string]ext2Taken{}
 	for _, k := range ext2Keys {
 		taken[k] = ext2Taken{Rows: []ext2Row{}}
@@ -381,11 +390,11 @@ func (w *ext2World) dump(cl *http.Client, url string, rng *rand.Rand) (taken map
 		panic(err)
 	}
 	enc = "identity"
-	if rng.Intn(2) == 0 {
+	if rng.Intn(2) == 0 && !w.noGzip {
 		enc = "gzip"
 		req.Header.Set("Accept-Encoding", "gzip")
 	}
-	resp, err := cl.Do(req)
+	resp, err := do(req)
 	if err != nil {
 		return taken, enc, 1, "request: " + err.Error()
 	}
@@ -834,7 +843,24 @@ func TestVerifEXT2Stress(t *testing.T) {
 		}
 		db := ext2NewDB(maxSize)
 		srv := httptest.NewServer(db)
-		const nRec, perG, nDumps = 8, 500, 30
+		const nRec, nDumps = 8, 30
+		// every third round several dumpers call the handler directly and as fast as they can while
+		// more Record calls run: dumps collide; which buffer a dump took out is not attributable, so
+		// late is not measured; decidable are "no buffer is taken out twice" (seen at the swap hook)
+		// and "nothing is served that was not recorded"
+		nDumpers, perG := 1, 500
+		if round%3 == 1 {
+			nDumpers, perG, exact = 4, 2500, false
+			w.noGzip = true
+		}
+		var tmu sync.Mutex
+		takenOut := map[*buffer]int{}
+		verifSwapped = func(b *buffer) *buffer {
+			tmu.Lock()
+			takenOut[b]++
+			tmu.Unlock()
+			return b
+		}
 		type call struct {
 			m  *dns.Msg
 			ri *agd.RequestInfo
@@ -859,16 +885,18 @@ func TestVerifEXT2Stress(t *testing.T) {
 				plans[g] = append(plans[g], call{m, ri})
 			}
 		}
-		var wg sync.WaitGroup
+		var wg, recWG sync.WaitGroup
+		var recDone atomic.Bool
 		for g := 0; g < nRec; g++ {
-			wg.Add(1)
+			recWG.Add(1)
 			go func(g int) {
-				defer wg.Done()
+				defer recWG.Done()
 				for _, c := range plans[g] {
 					db.Record(context.Background(), c.m, c.ri)
 				}
 			}(g)
 		}
+		go func() { recWG.Wait(); recDone.Store(true) }()
 		served, late := map[string]int{}, map[string]int{}
 		for _, k := range ext2Keys {
 			served[k], late[k] = 0, 0
@@ -878,40 +906,66 @@ func TestVerifEXT2Stress(t *testing.T) {
 			taken map[string]ext2Taken
 		}
 		var rets []retired
+		var dmu sync.Mutex
 		foreign, maxKeys, why := 0, 0, ""
-		drng := rand.New(rand.NewSource(int64(round)))
-		wg.Add(1)
-		go func() {
-			defer wg.Done()
-			for i := 0; i < nDumps; i++ {
-				old := db.buffer.Load()
-				taken, _, f, wh := w.dump(cl, srv.URL, drng)
-				foreign += f
-				if why == "" {
-					why = wh
+		for dg := 0; dg < nDumpers; dg++ {
+			drng := rand.New(rand.NewSource(int64(round*10 + dg)))
+			wg.Add(1)
+			go func() {
+				defer wg.Done()
+				for i := 0; i < nDumps || (nDumpers > 1 && !recDone.Load() && i < 5000); i++ {
+					var r retired
+					var f int
+					var wh string
+					if nDumpers == 1 {
+						r.b = db.buffer.Load()
+						r.taken, _, f, wh = w.dump(cl, srv.URL, drng)
+						time.Sleep(time.Duration(drng.Intn(300)) * time.Microsecond)
+					} else {
+						r.taken, _, f, wh = w.dumpDirect(db, drng)
+					}
+					dmu.Lock()
+					foreign += f
+					if why == "" {
+						why = wh
+					}
+					rets = append(rets, r)
+					dmu.Unlock()
 				}
-				rets = append(rets, retired{old, taken})
-				time.Sleep(time.Duration(drng.Intn(300)) * time.Microsecond)
-			}
-		}()
+			}()
+		}
 		wg.Wait()
+		recWG.Wait()
 		for _, r := range rets {
-			after, f := w.project(r.b)
-			foreign += f
+			after := map[string]int{}
+			if r.b != nil {
+				var f int
+				after, f = w.project(r.b)
+				foreign += f
+			}
 			nk := 0
 			for _, k := range ext2Keys {
 				served[k] += r.taken[k].Hits
-				late[k] += after[k] - r.taken[k].Hits
+				if r.b != nil {
+					late[k] += after[k] - r.taken[k].Hits
+				}
 				if r.taken[k].Hits > 0 {
 					nk++
 				}
 			}
 			maxKeys = max(maxKeys, nk)
 		}
+		dup := 0
+		for _, n := range takenOut {
+			if n > 1 {
+				dup++
+			}
+		}
 		pending, f := w.project(db.buffer.Load())
 		srv.Close()
 		out.Emit(map[string]any{"ev": "Summary", "beh": round, "recorded": recorded, "served": served, "pending": pending,
-			"late": late, "exact": exact, "maxSize": maxSize, "maxKeys": maxKeys, "recorders": nRec, "dumps": nDumps,
+			"late": late, "exact": exact, "maxSize": maxSize, "maxKeys": maxKeys, "recorders": nRec, "dumps": len(rets),
+			"dumpers": nDumpers, "dupTaken": dup,
 			"foreign": foreign + f, "why": why})
 	}
 }
